@@ -211,6 +211,32 @@ class MayRaise(object):
                 pass
         return out
 
+    def _may_be_float(self, e, ctx, depth=0):
+        """light local type inference: can expression e be a float?"""
+        if depth > 4:
+            return False
+        if isinstance(e, ast.Constant):
+            return isinstance(e.value, float)
+        if isinstance(e, ast.Call):
+            d = dotted(e.func) or ""
+            if d == "float" or d.startswith("math.") or d in ("Fraction.__float__", "sum") and False:
+                return True
+            return False
+        if isinstance(e, ast.BinOp):
+            if isinstance(e.op, ast.Div):
+                return True
+            return self._may_be_float(e.left, ctx, depth + 1) or self._may_be_float(e.right, ctx, depth + 1)
+        if isinstance(e, ast.UnaryOp):
+            return self._may_be_float(e.operand, ctx, depth + 1)
+        if isinstance(e, ast.Name):
+            for n in ast.walk(ctx["fn"]):
+                if isinstance(n, ast.Assign) and any(isinstance(t, ast.Name) and t.id == e.id for t in n.targets):
+                    if n.value is not e and self._may_be_float(n.value, ctx, depth + 1):
+                        return True
+                if isinstance(n, ast.AugAssign) and isinstance(n.target, ast.Name) and n.target.id == e.id and (isinstance(n.op, ast.Div) or self._may_be_float(n.value, ctx, depth + 1)):
+                    return True
+        return False
+
     @staticmethod
     def _pop_guarded(call):
         """obj.pop("k") under `if "k" in obj:` / in the else of `if "k" not in obj:`,
@@ -248,6 +274,10 @@ class MayRaise(object):
             if f.id in self.call_raises and f.id not in ctx["nested"] and f.id not in ctx["callables"]:
                 for x in self.call_raises[f.id]:
                     self._add(out, x, where)
+                if f.id in ("int", "round") and n.args and self._may_be_float(n.args[0], ctx):
+                    # int(inf) -> OverflowError, int(nan) -> ValueError
+                    self._add(out, "OverflowError", where)
+                    self._add(out, "ValueError", where)
                 return
             if f.id in self.no_raise and f.id not in ctx["nested"] and f.id not in ctx["callables"]:
                 return
